@@ -717,6 +717,93 @@ fn repo_headers(thorough: bool, st: &mut Stats, fails: &mut Vec<Failure>) {
 
 // ------------------------------------------------------------------ main
 
+/// corpus/C09: fixed shapes with model-free oracles (closure by rustc, verbatim consistency with the full bindings, expected /
+/// absent names), run first
+fn corpus(st: &mut Stats, fails: &mut Vec<Failure>) {
+    let dir = std::path::Path::new(&std::env::var("VERIF_DIR").unwrap_or_else(|_| "/verif".into())).join("corpus/C09");
+    let mut files: Vec<std::path::PathBuf> = std::fs::read_dir(&dir).map(|d| d.filter_map(|e| e.ok()).map(|e| e.path()).filter(|p| p.extension().is_some_and(|e| e == "h" || e == "hpp")).collect()).unwrap_or_default();
+    files.sort();
+    let scratch = Scratch::new("c09corpus");
+    let mut k = 0usize;
+    for f in &files {
+        let text = std::fs::read_to_string(f).unwrap_or_default();
+        let hp = scratch.path(&f.file_name().unwrap().to_string_lossy());
+        std::fs::write(&hp, &text).unwrap();
+        let lines: Vec<&str> = text.lines().collect();
+        for (li, line) in lines.iter().enumerate() {
+            let Some(fl) = line.strip_prefix("// bindgen-flags:") else { continue };
+            k += 1;
+            st.bump("corpus-runs");
+            let mut expect: Vec<String> = vec![];
+            let mut absent: Vec<String> = vec![];
+            for l2 in lines.iter().skip(li + 1) {
+                if let Some(e) = l2.strip_prefix("// expect:") { expect.extend(e.split_whitespace().map(|x| x.to_string())); }
+                else if let Some(e) = l2.strip_prefix("// expect-absent:") { absent.extend(e.split_whitespace().map(|x| x.to_string())); }
+                else { break; }
+            }
+            let all = util::shell_split(fl);
+            let (pre, post): (Vec<String>, Vec<String>) = match all.iter().position(|x| x == "--") { Some(i) => (all[..i].to_vec(), all[i + 1..].to_vec()), None => (all.clone(), vec![]) };
+            let mk = |pre: &[String]| -> Vec<String> {
+                let mut v = vec![hp.to_string_lossy().into_owned(), "--formatter".into(), "none".into(), "--no-layout-tests".into()];
+                v.extend(pre.iter().cloned()); v.push("--".into()); v.extend(post.iter().cloned()); v
+            };
+            // the same run without allow- / blocklists
+            let mut plain: Vec<String> = vec![];
+            let mut it = pre.iter();
+            while let Some(x) = it.next() {
+                if x.starts_with("--allowlist-") || x.starts_with("--blocklist-") { if !x.contains('=') { it.next(); } continue; }
+                if x == "--no-recursive-allowlist" { continue; }
+                plain.push(x.clone());
+            }
+            let input = format!("{{\"corpus\":{},\"flags\":{},\"header\":{}}}", json_str(&f.file_name().unwrap().to_string_lossy()), json_str(fl.trim()), json_str(&text));
+            let a = drive::generate_with_flags(&mk(&pre), None);
+            let full = drive::generate_with_flags(&mk(&plain), None);
+            let (Some(ab), Some(fb)) = (a.bindings.clone(), full.bindings.clone()) else {
+                fails.push(Failure { kind: "oracle-closure", detail: format!("corpus run produced no bindings: allow-listed {:?}/{:?}, full {:?}/{:?}", a.error, a.panic, full.error, full.panic), input });
+                continue;
+            };
+            let (Ok(al), Ok(fl_)) = (inventory::parse(&ab), inventory::parse(&fb)) else {
+                fails.push(Failure { kind: "oracle-closure", detail: "corpus bindings do not parse".into(), input });
+                continue;
+            };
+            let defined: BTreeSet<String> = al.iter().filter_map(|l| l.name.clone()).collect();
+            let miss: Vec<&String> = expect.iter().filter(|n| !defined.contains(*n)).collect();
+            if !miss.is_empty() {
+                fails.push(Failure { kind: "oracle-roots", detail: format!("corpus: {miss:?} must be generated (a matching declaration or something one needs) and are not; defined: {:?}", defined.iter().take(40).collect::<Vec<_>>()), input: input.clone() });
+                continue;
+            }
+            let extra: Vec<&String> = absent.iter().filter(|n| defined.contains(*n)).collect();
+            if !extra.is_empty() {
+                fails.push(Failure { kind: "oracle-minimal", detail: format!("corpus: {extra:?} are unrelated to every allow-listed item (or blocklisted) and are generated"), input: input.clone() });
+                continue;
+            }
+            let full_texts: BTreeSet<&str> = fl_.iter().map(|l| l.text.as_str()).collect();
+            if let Some(l) = al.iter().find(|l| !full_texts.contains(l.text.as_str())) {
+                fails.push(Failure { kind: "oracle-consistent", detail: format!("corpus: item of the allow-listed bindings does not occur verbatim in the full bindings: {}", &l.text[..l.text.len().min(400)]), input: input.clone() });
+                continue;
+            }
+            // blocklisted types are the user's to define: a trait-less stub per literal `--blocklist-type` / `--blocklist-item` name
+            let mut stubs = String::new();
+            let mut it2 = pre.iter();
+            while let Some(x) = it2.next() {
+                if x == "--blocklist-type" || x == "--blocklist-item" {
+                    if let Some(n) = it2.next() { if n.chars().all(|c| c.is_alphanumeric() || c == '_') && !defined.contains(n) { stubs.push_str(&format!("#[repr(C)] pub struct {n} {{ _b: [u8; 0] }}\n")); } }
+                }
+            }
+            let ab = format!("{stubs}{ab}");
+            match compile_batch(&scratch, &format!("k{k}"), &[&ab]) {
+                Ok(()) => st.closure_compiled += 1,
+                Err(e) => {
+                    if compile_batch(&scratch, &format!("k{k}f"), &[&fb]).is_ok() {
+                        let first: String = e.lines().filter(|l| l.starts_with("error")).take(3).collect::<Vec<_>>().join(" | ");
+                        fails.push(Failure { kind: "oracle-closure", detail: format!("corpus: allow-listed bindings do not compile on their own although the full bindings do: {first}"), input });
+                    } else { st.closure_baseline_broken += 1; }
+                }
+            }
+        }
+    }
+}
+
 fn build_case(rng: &mut Rng, p: &Program, main_h: &str, inc_h: &str, variant: u64) -> Case {
     let inv = rng.chance(1, 12);
     let allow = if variant == 0 && rng.chance(1, 3) { PatternSets::default() } else { gen_sets(rng, p, 3, inv, "inc.h") };
@@ -802,6 +889,7 @@ fn main() {
 
     let t0 = std::time::Instant::now();
     let mut rx_rng = rng.fork();
+    corpus(&mut st, &mut fails);
     regex_validation(&mut rx_rng, n_rx, &mut st, &mut fails);
     let t_rx = t0.elapsed().as_secs_f64();
     let (mut t_gen, mut t_model, mut t_rustc, mut t_oracle) = (0f64, 0f64, 0f64, 0f64);
